@@ -167,6 +167,8 @@ class QFunction(QToken):
         args_str = string[arg_start + 1 : arg_end]
         while args_str:
             (arg_t, arg), args_str = _parse_token(args_str, namespace)
+            if not arg_t:
+                raise QueryParseException("Function expected an argument, got nothing")
             # Only skip the separator that directly follows this argument
             # (bracketed tokens have already consumed it), never a later one
             args_str = args_str.lstrip()
@@ -348,9 +350,9 @@ def _parse_token(string: str, namespace: dict) -> Tuple[Tuple[Any, str], str]:
         raise QueryParseException(
             "Reached unreachable, cannot parse something that isn't a string"
         )
+    string = string.strip()
     if len(string) == 0:
         return (None, ""), string
-    string = string.strip()
     token = None
     t = None  # Declare so we can return it
     for t in qtypes:
